@@ -552,6 +552,12 @@ impl<'a> GeneralCheck<'a> {
                         .entry(name)
                         .and_modify(|val| val.push(regex.syntax()))
                         .or_insert(vec![regex.syntax()]);
+                } else if let Some((rule_name, _)) = rule.name(cst) {
+                    // a creation without a name creates a node of the rule's own kind
+                    sema.rule_bindings
+                        .entry(rule_name)
+                        .and_modify(|val| val.push(regex.syntax()))
+                        .or_insert(vec![regex.syntax()]);
                 }
                 if regex.whole_rule(cst) {
                     sema.has_rule_creation.insert(rule);
